@@ -597,4 +597,34 @@ theorem close_restores_plain_M (hist blk : List Op) (t : Target)
     (NoGD_init.run hist hh).step .beginGroup rfl
   exact (close_restores_M hist blk t hnf hb (by rw [h0.globals blk hp]; simp)).2
 
+/-! ## TeX's specification and the code-compatible one coincide away from finding C01-d -/
+
+theorem Spec.stepTeX_eq (s : Spec) (op : Op) (h : Spec.undefLet s op = false) :
+    s.stepTeX op = s.step op := by
+  cases op with
+  | define pre t d =>
+    simp only [Spec.undefLet] at h
+    simp only [Spec.stepTeX]
+    cases hr : Spec.resolveDef s.cur d with
+    | none => simp [hr] at h
+    | some c => rfl
+  | _ => rfl
+
+theorem Spec.runTeX_eq (s : Spec) (ops : List Op) (h : Spec.noUndefLet s ops = true) :
+    s.runTeX ops = s.run ops := by
+  induction ops generalizing s with
+  | nil => rfl
+  | cons op ops ih =>
+    simp only [Spec.noUndefLet, Bool.and_eq_true, Bool.not_eq_true'] at h
+    simp only [Spec.runTeX, Spec.run, Spec.stepTeX_eq s op h.1]
+    by_cases hf : (s.step op).2.fatal = true
+    · simp [hf]
+    · have hf' : (s.step op).2.fatal = false := by simpa using hf
+      simp only [hf', Bool.false_eq_true, if_false] at h ⊢
+      rw [ih _ h.2]
+
+theorem outs_eq_tex (ops : List Op) (h : Spec.noUndefLet Spec.init ops = true) :
+    (run .fixed VMState.init ops).2 = (Spec.init.runTeX ops).2 := by
+  rw [Spec.runTeX_eq _ _ h]; exact outs_eq ops
+
 end C01
